@@ -430,3 +430,31 @@ CONTRACTS += [
 for _c in CONTRACTS:
     if not _c.ensures_raise and not _c.ensures_all and not _c.may_raise:
         _c.may_raise = tuple(FS_ERRORS)       # environment / serialiser errors: what they leave behind is the crash invariant's business
+
+
+# ------------------------------------------------------------------------------------------------
+# GeneratedData.set_value: the generator is consumed - i.e. the body of run executes - BEFORE anything is stored
+# (C05: a failure in the middle of the generator must not be able to leave a partial result behind)
+# ------------------------------------------------------------------------------------------------
+GenIface = Iface('GenIface', methods={'__iter__': Meth(ret=Seq(Val), raises=['Opaque'], event=True, pure=False)})
+
+
+def gsv_materialised(self, value, trace, fs, fs0):
+    """on return the value is the materialised list of what the generator yielded: consumed exactly once, here;
+    no file-system event happened"""
+    return trace.count('__iter__') == 1 and trace.returned('__iter__') == 1 and self._value == trace.ret('__iter__') and fs.same_except(fs0)
+
+
+def gsv_failure(self, old_self, trace, fs, fs0):
+    """a generator that raises in the middle raises out of set_value: nothing was stored, no value is kept"""
+    return fs.same_except(fs0) and self._value == old_self._value
+
+
+CONTRACTS += [
+    Contract(id='D.GeneratedData.set_value', target='taskchain.data:GeneratedData.set_value', props={'C05': 'decisive', 'C06': 'supporting'},
+             inputs={'self': Obj('taskchain.data:GeneratedData', _base_dir=S(PathK, 'base_dir'), _name=S(Str, 'name'), _persisting=S(Bool, 'persisting'),
+                                 _value=Const(None)),
+                     'value': Abs(GenIface, 'generator')},
+             ensures={'materialised_before_store': 'gsv_materialised'}, ensures_raise={'nothing_kept': 'gsv_failure'},
+             crash_invariant={}, l0=['A-fs'], searchable=False),
+]
